@@ -24,6 +24,7 @@
 #include <random>
 #include <sstream>
 #include <string>
+#include <sys/mman.h>
 #include <sys/wait.h>
 #include <unistd.h>
 #include <vector>
@@ -296,6 +297,62 @@ inline Outcome run(Uci& uci, const Spec& spec)
             o.keys.push_back({strtoull(l.c_str() + 5, nullptr, 10), l.substr(sp + 1)});
         }
     }
+    return o;
+}
+
+// Resets a large zero-initialised table in O(touched pages): whole pages are dropped
+// (MADV_DONTNEED gives zero pages back), the partial pages at both ends are cleared by hand.
+inline void zero_region(void* p, size_t bytes)
+{
+    uintptr_t a = reinterpret_cast<uintptr_t>(p), e = a + bytes;
+    uintptr_t pa = (a + 4095) & ~uintptr_t(4095), pe = e & ~uintptr_t(4095);
+    if (pa >= pe)
+    {
+        std::memset(p, 0, bytes);
+        return;
+    }
+    std::memset(p, 0, pa - a);
+    std::memset(reinterpret_cast<void*>(pe), 0, e - pe);
+    madvise(reinterpret_cast<void*>(pa), pe - pa, MADV_DONTNEED);
+}
+
+// Same session, but in the calling process: the transposition table and the evaluator's pawn
+// cache are put back to their freshly-constructed (all zero) state first. No crash isolation:
+// used only where the oracle is not a sanitizer.
+inline Outcome run_inproc(Uci& uci, const Spec& spec)
+{
+    zero_region(uci.ttable.data_.data(), uci.ttable.data_.size() * sizeof(uci.ttable.data_[0]));
+    zero_region(uci.scorer._pawn_hash_table.data_.data(),
+                uci.scorer._pawn_hash_table.data_.size() * sizeof(uci.scorer._pawn_hash_table.data_[0]));
+    ChildState cs;
+    CS = &cs;
+    cs.spec = &spec;
+    cs.uci = &uci;
+    for (auto& l : spec.lines)
+        if (l.rfind("go", 0) == 0) cs.n_go++;
+    vclock::step_ns = spec.clock_step_ms * 1000000LL;
+    std::string script;
+    for (auto& l : spec.lines) script += l + "\n";
+    std::istringstream in(script);
+    std::stringbuf outbuf;
+    std::streambuf* oldin = std::cin.rdbuf(in.rdbuf());
+    std::streambuf* oldout = std::cout.rdbuf(&outbuf);
+    std::cin.clear();
+    verif::point_cb = hook;
+    uci.loop();
+    {
+        std::unique_lock<std::mutex> lk(cs.m);
+        cs.cv.wait(lk, [&] { return !cs.searching; });
+    }
+    verif::point_cb = nullptr;
+    std::cin.rdbuf(oldin);
+    std::cout.rdbuf(oldout);
+    Outcome o;
+    o.output = outbuf.str();
+    o.visits = cs.all_visits;
+    o.horizon_hit = cs.horizon_hit;
+    o.keys = cs.keys;
+    CS = nullptr;
     return o;
 }
 
